@@ -11,7 +11,8 @@ RULE = ('input strings built from tokens: TEXT (may contain "[", lone ESC, newli
         'several sequences at one position, at the very start/end), non-SGR CSI sequences, an unterminated tail; a second '
         'free-form generator over {ESC,[,digits,;,:,?,space,m,A,H,x}; a third sub-check enumerates all token strings '
         'over a 9-token alphabet up to length 5/6. Non-trivial = >=1 SGR sequence with >=2 codes and an extended-colour '
-        'group that is not first in its sequence, or >=2 SGR sequences; distinct by input string.')
+        'group that is not first in its sequence, or >=2 SGR sequences; distinct by input string. Every input is also parsed into '
+        'three objects that already hold formatted text (set_ansi_str) and must give the state of a fresh construction.')
 ASSUMPTIONS = ['style not asserted (text still is) for: empty parameter inside a non-empty sequence, 38/48/58 without a '
                'complete group, colour values > 255, non-numeric parameters',
                'inputs in which some CSI body contains characters outside 0x20-0x3F are only required not to crash '
